@@ -51,7 +51,7 @@ INVS = {
     'cov': ['CovIsHistogram', 'CovSums', 'CovImplAgrees'],
     'hpx': ['CentreRoundTrip', 'StaysInPixel', 'PointWellFormed', 'AndFormPow2'],
 }
-NBIG = 11
+NBIG = 14
 
 BOUNDS = {
     'quick': dict(maxdims=3, maxsize=3, nbig=NBIG, covnsides='{1, 2}', maxhits=3,
@@ -355,6 +355,18 @@ def big_points(ps: list[int]) -> list[dict]:
     return [{'c': c, 'acc': [ref(c)]} for c in cands]
 
 
+def big_points_for(ps: list[int], coords: list[list[int]]) -> list[dict]:
+    def ref(c):
+        if not all(0 <= x < n for x, n in zip(c, ps)):
+            return -1
+        idx, stride = 0, 1
+        for x, n in zip(c, ps):
+            idx += x * stride
+            stride *= n
+        return idx
+    return [{'c': c, 'acc': [ref(c)]} for c in coords]
+
+
 def make_batches(pix, big, cov, hpx) -> list[dict]:
     batches = []
     by_shape: dict[tuple, list] = {}
@@ -374,6 +386,14 @@ def make_batches(pix, big, cov, hpx) -> list[dict]:
         pts = big_points(c['ps'])
         batches.append({'kind': 'big', 'ps': c['ps'], 'ctor': 'shape', 'int': True,
                         'pts': [p['c'] for p in pts], 'acc': [p['acc'] for p in pts], 'dtype': c['dtype']})
+        # the same points (and their neighbours at the end of the map) as floating-point coordinates, in quarter-pixel
+        # units: the flat index must be exact although it is far beyond what the coordinate dtype can represent
+        last = [n - 1 for n in c['ps']]
+        extra = [[max(0, last[0] - k)] + last[1:] for k in range(1, 8)]
+        fpts = pts + big_points_for(c['ps'], extra)
+        batches.append({'kind': 'big', 'ps': c['ps'], 'ctor': 'shape', 'int': False,
+                        'pts': [[4 * x for x in p['c']] for p in fpts], 'acc': [p['acc'] for p in fpts],
+                        'dtype': c['dtype']})
     by_n: dict[int, list] = {}
     for c in cov:
         by_n.setdefault(c['nside'], []).append(c)
@@ -411,7 +431,8 @@ def restrict(batch: dict, x64: bool) -> dict | None:
     if batch['kind'] == 'big' and not x64:
         # coordinates that a float32 cannot hold are not float32-mode inputs (an implementation
         # may legitimately go through floating point, as it must for fractional coordinates)
-        keep = [i for i, pt in enumerate(batch['pts']) if all(_is_f32(c) for c in pt)]
+        unit = 1 if batch['int'] else 4
+        keep = [i for i, pt in enumerate(batch['pts']) if all(_is_f32(c) and _is_f32(c // unit) for c in pt)]
         return dict(batch, pts=[batch['pts'][i] for i in keep], acc=[batch['acc'][i] for i in keep])
     return batch
 
